@@ -19,6 +19,7 @@ def run(ctx):
     # --- (1) programs ending in every assertion form, through model and implementation
     progs = []
     triples = []       # (P, P ?(E), P !(E)) for the implementation-only metamorphic check
+    wordform = set()   # indices of triples whose assertion is a single word: an error on an input loses exactly that input
     if ctx.replay:
         import json
         rp = json.load(open(ctx.replay))
@@ -43,6 +44,8 @@ def run(ctx):
             nop = {"==": "!=", "<": ">=", ">": "<="}[op]
             pos, neg = "(%s %s %s)" % (a, op, b), "(%s %s %s)" % (a, nop, b)
         triples.append((base, base + " " + pos, base + " " + neg))
+        if 0.4 <= form < 0.7:
+            wordform.add(len(triples) - 1)
         progs += [base + " " + pos, base + " " + neg]
         # let / capture leave everything below intact: compare the stack below before/after
         progs.append(base + " let Q := %s; " % e)
@@ -58,6 +61,16 @@ def run(ctx):
                 for form in ("%s ?(%s)", "%s !(%s)", "%s let Q := %s;", "%s [%s]", "%s (%s == 1)",
                              "%s if (%s) then (1) else (2)", '%s "%%( %s %%)"', "%s (%s || 0)"):
                     progs.append(form % (v, e))
+    # regular-expression matching (regexec is a parameter of the model): on the implementation, valid and invalid patterns
+    if not ctx.replay:
+        for subj in ('"abc"', '("abc", "x")', '""', '"a(b"'):
+            for pat in ('"("', '"a{2"', '"[a"', '"a)("', '"b"', '"^abc$"', '"x*"', '"(a|x)"', '"\\("'):
+                for w in ("match",):
+                    b = "%s %s" % (subj, pat)
+                    triples.append((b, b + " ?" + w, b + " !" + w))
+                    wordform.add(len(triples) - 1)
+                    triples.append((subj, "%s (=~ %s)" % (subj, pat), "%s (!~ %s)" % (subj, pat)))
+                    wordform.add(len(triples) - 1)
     stats, irecs, mrecs = zwcorr.run_programs(ctx, h, progs, theorem="ZwVerif.C04.assert_yields_input_or_nothing",
                                              label="C04-programs")
     # --- (2) metamorphic, implementation only: results(P ?X) ⊎ results(P !X) = results(P) unless X reported an error
@@ -87,6 +100,13 @@ def run(ctx):
             if not (both <= base or all(both[x] <= base[x] for x in both)):
                 ctx.violation("an assertion yielded a stack that is not one of its inputs: %r / %r" % (p, q),
                               {"stream": "C04-metamorphic", "input": [b, p, q], "got": [rb.res[:8], rp_.res[:8], rq.res[:8]]})
+            elif k in wordform and extra_soft == len(rq.soft) - len(rb.soft) and extra_soft > 0 \
+                    and sum(both.values()) != sum(base.values()) - extra_soft:
+                # a word assertion that reports an error on an input: neither ?X nor !X holds for that input
+                ctx.violation("X reported %d error(s), yet ?X and !X together yield %d of the %d input stacks: %r / %r"
+                              % (extra_soft, sum(both.values()), sum(base.values()), p, q),
+                              {"stream": "C04-metamorphic", "input": [b, p, q], "got": [rb.res[:8], rp_.res[:8], rq.res[:8]],
+                               "theorem": "ZwVerif.C04.pred_not_three_valued"})
             else:
                 meta_ok += 1
     ctx.cov["evaluations"] = stats["programs"] + len(lines)
